@@ -465,6 +465,11 @@ struct Agg {
     fails: Vec<Value>,
     errors: Vec<Value>,
     incidents: Vec<Incident>,
+    /// signatures of the open known findings of this property: their hits are counted, one example each is kept,
+    /// and they never use up the room (or the early stop) meant for unknown failures
+    known_sigs: Vec<String>,
+    known_hits: BTreeMap<String, u64>,
+    unknown_fails: usize,
 }
 
 impl Agg {
@@ -493,7 +498,15 @@ impl Agg {
         }
         if let Some(a) = v["fails"].as_array() {
             for s in a {
-                if self.fails.len() < 200 {
+                let sig = s["sig"].as_str().unwrap_or("").to_string();
+                if self.known_sigs.contains(&sig) {
+                    let n = self.known_hits.entry(sig).or_insert(0);
+                    *n += 1;
+                    if *n == 1 {
+                        self.fails.push(s.clone());
+                    }
+                } else if self.unknown_fails < 200 {
+                    self.unknown_fails += 1;
                     self.fails.push(s.clone());
                 }
             }
@@ -765,7 +778,10 @@ pub fn driver_main(check: Arc<dyn Check>, cfg: RunConfig) -> i32 {
     }
     queue.reverse();
     let queue = Arc::new(Mutex::new(queue));
-    let agg = Arc::new(Mutex::new(Agg::default()));
+    let agg = Arc::new(Mutex::new(Agg {
+        known_sigs: findings.iter().filter(|f| f["property"].as_str() == Some(id) && f["status"].as_str() == Some("open")).filter_map(|f| f["signature"].as_str().map(|x| x.to_string())).collect(),
+        ..Agg::default()
+    }));
     let jobs = cfg.jobs.min(check.max_workers()).max(1);
     let stop = Arc::new(AtomicBool::new(false));
     let mut handles = Vec::new();
@@ -814,7 +830,7 @@ pub fn driver_main(check: Arc<dyn Check>, cfg: RunConfig) -> i32 {
                                         let mut a = agg.lock().unwrap();
                                         a.merge(&v);
                                         // failures beyond 200 are not even recorded: searching on only costs time
-                                        if a.fails.len() >= 200 {
+                                        if a.unknown_fails >= 200 {
                                             stop.store(true, Ordering::Relaxed);
                                         }
                                     }
